@@ -50,7 +50,8 @@ def describe(tier):
         "bounds": {"stream_len": 12 if q else 17, "bfs_segments": 3 if q else 4, "duplicates": 2},
         "min_nontrivial": 1000,
         "assumptions": [
-            "state canonicalisation in B: (delivered multiset, per-direction buffered seqs, seen-seq sets, released records); "
+            "state canonicalisation in B: (delivered multiset, per-direction buffered seqs, seen-seq sets, per-direction next expected "
+            "sequence number, released records); "
             "the reassembler's future depends only on these (get_tls_records is a fold over the accepted packets); the "
             "thorough tier repeats B without merging for <=3 segments and requires the same verdict",
             "retransmissions are exact duplicates (same seq, same bytes), as the property says",
@@ -118,9 +119,15 @@ def feed(arrivals):
 
 
 def canon(sess, released, delivered):
-    return (tuple(sorted(delivered)),
-            tuple(sorted(p.seq for p in sess.client_packet_buffer)), tuple(sorted(p.seq for p in sess.server_packet_buffer)),
-            tuple(sorted(sess.seen_packets_client)), tuple(sorted(sess.seen_packets_server)), tuple(released))
+    """canonical state; None if the implementation no longer has the fields the merge argument is about (the search then
+    falls back to the unmerged path tree, which needs no such argument)"""
+    try:
+        return (tuple(sorted(delivered)),
+                tuple(sorted(p.seq for p in sess.client_packet_buffer)), tuple(sorted(p.seq for p in sess.server_packet_buffer)),
+                tuple(sorted(sess.seen_packets_client)), tuple(sorted(sess.seen_packets_server)),
+                getattr(sess, "client_next_seq", None), getattr(sess, "server_next_seq", None), tuple(released))
+    except Exception:
+        return None
 
 
 def segs_of(stream, cuts, isn, d):
@@ -240,6 +247,8 @@ def explore_orders(stream, recs, cuts, isn, merge, max_dups, fails, sigbase, wit
                 execs += 1
                 dl = tuple(sorted((k if k != "d" else "c", i) for k, i in p2))
                 key = canon(sess, released, dl) if merge else p2
+                if key is None:
+                    key = p2
                 order = [i for k, i in p2 if k == "c"]
                 got_c = per_dir(released, "c")
                 got_s = per_dir(released, "s")
